@@ -33,6 +33,9 @@ Bind(m, name, f) == [n \in (DOMAIN m) \cup {name} |-> IF n = name THEN f ELSE m[
 \*  setmany/insertmany/deletemany s bs [v]   the same for every blob of the list bs (large scenarios)
 \*  intersect s o res   res := members of s that o has (values of s)
 \*  sub s o res         res := members of s that o has not (values of s)
+\*  abort/abortq s   an enumeration (Keys/All) of s that the consumer leaves after v items: no set changes
+\*  nested s         an enumeration of s whose loop body enumerates s again: no set changes (the outer
+\*                   enumeration is what the observation of s reports as keys / allk)
 \*  anything else    (index-only steps: storepack, flush, file, merge) no set changes
 Apply(m, st) ==
   CASE st.op = "new"       -> Bind(m, st.s, EmptyMap)
